@@ -28,7 +28,7 @@ Inductive alter_op :=
 | AAddColumn (c : coldef)
 | ADropColumn (c : string)
 | ARenameColumn (a b : string)
-| AAlterType (c : string) (ty : pg_type) (using : option string)
+| AAlterType (c : string) (ty : pg_type) (usng : option string)
 | ASetNotNull (c : string)
 | ADropNotNull (c : string)
 | ASetDefault (c e : string)
@@ -52,7 +52,7 @@ Inductive stmt :=
 | SCreateIndex (unique : bool) (n t : string) (cols : list string)
 | SDropIndex (n : string)
 | SCommentOnColumn (t c : string) (text : option string)
-| SUpdate (t c e : string) (where : option string)
+| SUpdate (t c e : string) (cond : option string)
 | SRaw (text : string).
 
 (* ---------- decidable equality ---------- *)
